@@ -14,6 +14,12 @@ ROLES = ("FORMED", "BROKEN", "FLEETING")
 
 
 def make_ids(rng: random.Random, n: int, kind: str | None = None) -> list[int]:
+    if kind is None and n >= 2 and rng.random() < 0.06:
+        # ids that double as sentinels in careless code: 0 (falsy) and -1 ("not found" / "no atom") among ordinary ones
+        ids = rng.sample(range(2, 10 * n + 20), n)
+        i, j = rng.sample(range(n), 2)
+        ids[i], ids[j] = 0, -1
+        return ids
     kind = kind or rng.choice(["range", "range", "shuffled", "sparse", "negative", "large"] * 3 + ["huge"])
     if kind == "range":
         return list(range(n))
